@@ -431,3 +431,12 @@ package q
 //@ func AccessorExpr.evaluateAccessor
 //@   props C15
 //@   recovers
+
+// C15: the parser strips the first and the last byte of a string-literal token
+// (Parser.consumeConstant: Value[1 : len-1]). That is in bounds because every
+// string the tokenizer's pattern for that kind lets through begins and ends
+// with a quote, two different bytes at least. Decided for the pattern as it
+// stands in the token table (language inclusion, exact); that a TokenString
+// token's Value IS a string that pattern matched is the tokenizer's loop (by
+// construction, not machine-checked).
+//@ rxpwithin string-literal-tokens-are-quoted props C15 kind TokenString within: ^"(?s:.*)"$
